@@ -599,4 +599,20 @@ theorem add_orig_accepts_smaller {A B : Store ℝ} (hA : A.WF) (hB : B.WF) (hr :
     (fun i j hi hj => zipAt_ok _ hA hB hi hj (by omega) (by omega))
   exact ⟨A', e⟩
 
+/-- before the repair the tridiagonal product of operands with inner dimension 1 (in particular
+`1 × 1` matrices) returned **twice** the product `A·D·B`: with `A = (2)`, `D = (5)`, `B = (3)` it
+answered 60 -/
+theorem multTridiag_orig_doubles {A B : Store ℝ} (hA : A.WF) (hB : B.WF) (D : Array ℝ) (O : Store ℝ)
+    (h : A.ncols = B.nrows) (hD : A.ncols = D.size) (h1 : A.ncols = 1) :
+    ∃ O', multTOrig A D #[] #[] B O = .ok O' ∧
+      O'.Holds A.nrows B.ncols (fun i j => 2 * (A.entry i 0 * D.getD 0 0 * B.entry 0 j)) := by
+  obtain ⟨O', e, hh⟩ := multTOrig_one hA hB D #[] #[] O h hD (by simp [h1]) (by simp [h1]) h1
+  exact ⟨O', e, hh.congr (fun i j _ _ => by simp only [ScalarReal.zero_eq]; ring)⟩
+
+/-- before the repair `fillDiag` of a `3 × 2` matrix wrote `M(2,2)`: outside the vectors for the
+row-stored class, past the end of the flat vector for the flat class (exact arithmetic, `Rat`) -/
+theorem fillDiag_orig_out_of_range :
+    isUb (fillDiagOrig (Store.row #[#[(0 : Rat), 0], #[0, 0], #[0, 0]]) 1) = true ∧
+    isUb (fillDiagOrig (Store.lin #[(0 : Rat), 0, 0, 0, 0, 0] 3 2) 1) = true := by decide
+
 end Bpp.C04
